@@ -628,10 +628,29 @@ class Evaluator:
         if "int" in c:
             w = INT_W.get(c["ty"]["s"], 64)
             return Bits.const(c["int"], w)
+        if "elems" in c:
+            t = self._table_value(c)
+            if t is not None:
+                return t
         tb = self.tb(path)
         if tb is None:
             raise Unsupported("const body " + path)
         return self.eval(tb, tb.root, {}, depth + 1)
+
+    def _table_value(self, c):
+        """a constant table evaluated by the compiler (facts: raw element values) as an array value: integers as
+        constants, field-less enums as their variant"""
+        et = c.get("elem_ty") or {}
+        w = INT_W.get(et.get("s"))
+        if w:
+            return ("array",) + tuple(Bits.const(x & ((1 << w) - 1), w) for x in c["elems"])
+        adt = self.f.adts.get(et.get("adt") or "")
+        if adt and adt["kind"] == "enum" and all(not v_["fields"] for v_ in adt["variants"]) and all("discr" in v_ for v_ in adt["variants"]):
+            mask = (1 << (8 * c["elem_size"])) - 1
+            by = {v_["discr"] & mask: v_["name"] for v_ in adt["variants"]}
+            if all((x & mask) in by for x in c["elems"]):
+                return ("array",) + tuple(Agg(et["adt"], by[x & mask], {}) for x in c["elems"])
+        return None
 
     def bind(self, pat, val, env):
         if not pat:
@@ -756,6 +775,11 @@ class Evaluator:
                 return self.eval(tb, n["e"], env, depth)
             return Sym("unit")
         if k == "StaticRef":
+            c_ = self.f.consts.get(n["def"])
+            if c_ and "elems" in c_ and not c_.get("mutable"):
+                t_ = self._table_value(c_)
+                if t_ is not None:
+                    return t_
             return Sym("static:" + n["def"])
         return Sym("%s@%s" % (k, n.get("sp", {}).get("l")))
 
